@@ -40,6 +40,25 @@ def base_decls(tier, with_H=True, quick_reprs=None, renames=True, f3_reprs=None)
     return out
 
 
+def sorted_subjects(feats, prefix, **opts):
+    """Ascending declarations under `sorted(value)` / `sorted(name, value)`: the compile-time check must not influence what
+    is generated (e.g. by skipping the sort of the parser's value map)."""
+    from enums import EnumDecl, Variant, lo, hi
+    subs = []
+    k = 0
+    for r in ("i8", "i64", "u16"):
+        sets = [[lo(r), lo(r) + 1, 5, hi(r)], list(range(3, 9)), [0, 2, 3, 7, 8, 9, 20], list(range(10, 50)), [1]]
+        if REPRS[r][1]:
+            sets.append([-7, -5, -4, -1, 0, 3])
+        for vals in sets:
+            variants = [Variant("V%03d" % i, lit=str(v)) for i, v in enumerate(vals)]
+            d = EnumDecl(r, variants, tag={"family": "sorted-asc"})
+            for sf in ({"value": None}, {"name": None, "value": None}):
+                subs.append(Subj("%s%03d" % (prefix, k), d, Config(list(feats) + [("sorted", sf)]), **opts))
+                k += 1
+    return subs
+
+
 def family_desc(decls):
     d = {}
     for x in decls:
@@ -81,7 +100,7 @@ def c01(tier):
     decls = base_decls(tier)
     a = Config(["try_from", "TryFrom", "into", "Into"])
     b = Config(["try_from", "TryFrom", "into", "Into", ("as_str", {"mode": "table"})])
-    subs = mk_subjects(decls, [("a", a), ("b", b)])
+    subs = mk_subjects(decls, [("a", a), ("b", b)]) + sorted_subjects(b.feats, "z")
     explore(res, "%s/c01" % tier, subs, phases=["conv"])
     if tier == "thorough":
         # every value of the 32-bit reprs, on optimised subjects (2^32 arguments x 2 entry points per enum)
@@ -113,7 +132,7 @@ def c03(tier):
         cfgs.append((m[0], Config([("as_str", {"mode": m}), "Debug", "Display", "IntoStr"])))
     cfgs.append(("n", Config(["as_str", "names", "Debug", "Display", "IntoStr"])))   # names steers auto
     cfgs.append(("d", Config(["Debug"])))   # auto-enabled private as_str only
-    subs = mk_subjects(decls, cfgs)
+    subs = mk_subjects(decls, cfgs) + sorted_subjects(cfgs[1][1].feats, "z") + sorted_subjects(cfgs[0][1].feats, "y")
     explore(res, "%s/c03" % tier, subs, phases=["str"])
     finish_common(res, decls, subs,
                   "states = (enum, variant) pairs in every as_str mode; transitions = as_str/Display/Debug/IntoStr calls; "
@@ -162,7 +181,7 @@ def c05(tier):
     decls = base_decls(tier)
     cfgs = [("a", Config(["MIN", "MAX", "next", "next_back"])),
             ("b", Config(["next", "next_back"]))]       # helpers auto-enabled
-    subs = mk_subjects(decls, cfgs)
+    subs = mk_subjects(decls, cfgs) + sorted_subjects(cfgs[0][1].feats, "z")
     explore(res, "%s/c05" % tier, subs, phases=["order"])
     finish_common(res, decls, subs,
                   "states = (enum, variant); transitions = MIN/MAX/next/next_back calls and chain steps; "
@@ -233,6 +252,8 @@ def c06(tier):
                     subs.append(Subj("h%s%d_%d" % (r, i, j), d, c,
                                      bounds=dict(x1_depth=1, x2_extra=0, x2_cap=2), weight=4000))
                 extra.append(d)
+    for m in ("auto", "next_and_back", "table", "table_inline"):
+        subs += sorted_subjects([("iter", {"mode": m})], "z" + m.replace("_", ""), bounds=dict(x1_depth=2, x2_extra=1, x2_cap=5))
     merged = explore(res, "%s/c06" % tier, subs, phases=["iter"])
     # vacuity: at full X2 depth every window [lo,hi) of the sorted list must have been reached
     short = 0
@@ -303,6 +324,8 @@ def c07(tier):
         for j, (nm, c) in enumerate(range_cfgs(d)):
             subs.append(Subj("l%05d_%d" % (i, j), d, c, weight=80,
                              bounds=dict(range_x1_depth=1, range_x2_extra=0, x2_cap=2, range_pair_step=37 * 37)))
+    for m in ("auto", "next_and_back", "table"):
+        subs += sorted_subjects([("iter", {"mode": m}), "range"], "z" + m[0], bounds=dict(range_x1_depth=1, range_x2_extra=1, x2_cap=4, range_pair_step=7))
     explore(res, "%s/c07" % tier, subs, phases=["range"])
     finish_common(res, decls + ldecls, subs,
                   "states = operation histories on range(a,b) for ALL ordered pairs (a,b) of variants (large enums: endpoints, diagonal, "
@@ -329,6 +352,8 @@ def c08(tier):
             if big:
                 b.update(x1_depth=2, x2_extra=0, x2_cap=2)
             subs.append(Subj("s%05d%s" % (i, suf), d, c, bounds=b, weight=60 if big else None))
+    subs += sorted_subjects(["names", "iter", "as_str"], "z", bounds=dict(x1_depth=2, x2_extra=1, x2_cap=5))
+    subs += sorted_subjects(["names"], "y", bounds=dict(x1_depth=2, x2_extra=1, x2_cap=5))
     explore(res, "%s/c08" % tier, subs, phases=["names"])
     finish_common(res, decls, subs,
                   "states = operation histories on names(); transitions = operations, observations, consumers, zip/as_str alignment; "
